@@ -39,7 +39,7 @@ ClassOk(cls, mn, depth, bb) ==
 
 Descs ==
   { [cls |-> G_AllClasses[c], mn |-> Sizes[s], b |-> Batches[bi], depth |-> Depths[d], dt |-> Dts[t],
-     seed |-> Seed * 1000 + k * 97 + c * 13 + s * 7 + bi * 3 + d,
+     seed |-> k * 97 + c * 13 + s * 7 + bi * 3 + d,
      id |-> ((((c * 16 + s) * 8 + bi) * 4 + d) * 2 + t) * 4 + k]
     : c \in 1..Len(G_AllClasses), s \in 1..Len(Sizes), bi \in 1..Len(Batches), d \in 1..Len(Depths),
       t \in 1..Len(Dts), k \in 1..SeedsPer }
